@@ -59,7 +59,8 @@ def run(chk):
     for (r, b, fl, o, i, nt), sh in zip(suspects, shp):
         name = SHAPES.get(sh)
         # only the shapes that change what the reference identifies can break the commutation
-        if name in ("c08_rel_cancels", "c08_rel_dot_eaten") and fnd.covers(name, {"reference": r, "base": b}): continue
+        # ... and only where the frozen model fails in the same way on this very input
+        if name in ("c08_rel_cancels", "c08_rel_dot_eaten") and o == model[i] and fnd.covers(name, {"reference": r, "base": b}): continue
         chk.violation("normalize(resolve(normalize(R), B)) differs from normalize(resolve(R, B))",
                       {"request": reqs[i], "reference": r, "base": b, "build": fl, "impl": o, "shape": name})
     # kind preservation of normalization on R alone
@@ -73,7 +74,7 @@ def run(chk):
     for (x, k0, k1), sh in zip(bad, shp):
         r, t0, t1, fl, o, i = x
         name = SHAPES.get(sh)
-        if name and fnd.covers(name, {"reference": r}): continue
+        if name and o == model[i] and fnd.covers(name, {"reference": r}): continue
         chk.violation("normalization changed the kind of the reference (scheme, authority, path kind): %s -> %s" % (k0, k1),
                       {"request": reqs[i], "reference": r, "build": fl, "impl": o, "before": show(t0), "after": show(t1), "shape": name})
     if corr and not chk.violations:
